@@ -2014,7 +2014,13 @@ class WBEMConnection:  # pylint: disable=too-many-instance-attributes
         if tup_tree and tup_tree[0][0] == 'ERROR':
             # The operation failed
             err = tup_tree[0]
-            code = int(err[1]['CODE'])
+            try:
+                code = int(err[1]['CODE'])
+            except ValueError:
+                raise CIMXMLParseError(
+                    _format("Invalid non-integer value of attribute CODE of "
+                            "element ERROR: {0!A}", err[1]['CODE']),
+                    conn_id=self.conn_id)
             err_insts = err[2] or None  # List of CIMInstance objects
             if 'DESCRIPTION' in err[1]:
                 desc = err[1]['DESCRIPTION']
@@ -2288,7 +2294,13 @@ class WBEMConnection:  # pylint: disable=too-many-instance-attributes
         if tup_tree and tup_tree[0][0] == 'ERROR':
             # Operation failed
             err = tup_tree[0]
-            code = int(err[1]['CODE'])
+            try:
+                code = int(err[1]['CODE'])
+            except ValueError:
+                raise CIMXMLParseError(
+                    _format("Invalid non-integer value of attribute CODE of "
+                            "element ERROR: {0!A}", err[1]['CODE']),
+                    conn_id=self.conn_id)
             err_insts = err[2] or None  # List of CIMInstance objects
             if 'DESCRIPTION' in err[1]:
                 desc = err[1]['DESCRIPTION']
@@ -2450,7 +2462,13 @@ class WBEMConnection:  # pylint: disable=too-many-instance-attributes
         if tup_tree and tup_tree[0][0] == 'ERROR':
             # The operation failed
             err = tup_tree[0]
-            code = int(err[1]['CODE'])
+            try:
+                code = int(err[1]['CODE'])
+            except ValueError:
+                raise CIMXMLParseError(
+                    _format("Invalid non-integer value of attribute CODE of "
+                            "element ERROR: {0!A}", err[1]['CODE']),
+                    conn_id=self.conn_id)
             err_insts = err[2] or None  # List of CIMInstance objects
             if 'DESCRIPTION' in err[1]:
                 desc = err[1]['DESCRIPTION']
